@@ -191,8 +191,21 @@ def h_interpret(eng, perm, layout):
         lines = [mov[i] for i in perm] + t.head() + t.tail()
     if layout == "blank":
         lines = list(itertools.chain.from_iterable((ln, "") for ln in lines))
-    ureg = pint.UnitRegistry(lines, non_int_type=eng.ntype, on_redefinition="raise")
+    if layout == "late-dimension":
+        # the derived dimension is declared on the last line, after a context whose relation
+        # names it (evaluated while loading): what the finished registry answers is the file's meaning
+        lines = [ln for ln in lines if not ln.startswith("[speed]")]
+        lines += ["[accel] = [speed] / [time]", "@context cy", "    [speed] -> [length]: value * 7 * s", "    [accel] -> [speed]: value * 11 * s", "@end", "[speed] = [length] / [time]"]
+    # (declaring a dimension that an earlier line already referred to counts as a redefinition)
+    ureg = pint.UnitRegistry(lines, non_int_type=eng.ntype, on_redefinition="ignore" if layout == "late-dimension" else "raise")
     t.check(ureg, "r")
+    if layout == "late-dimension":
+        x = eng.real("x_late")
+        want = {"[length]": 1, "[time]": -1}
+        eng.prove({k: int(v) for k, v in ureg.get_dimensionality("[speed]").items()} == want, "late-dimension:get_dimensionality")
+        eng.prove({k: int(v) for k, v in ureg.get_dimensionality("[accel]").items()} == {"[length]": 1, "[time]": -2}, "late-dimension:get_dimensionality-nested")
+        eng.prove(Eq(ureg.Quantity(x, "m/s").to("m", "cy").magnitude, x * 7), "late-dimension:context-relation")
+        eng.prove(Eq(ureg.Quantity(x, "m/s**2").to("m/s", "cy").magnitude, x * 11), "late-dimension:context-relation-nested")
 
 
 def h_loading_paths(eng, path):
@@ -296,6 +309,25 @@ def h_decimal_literals(eng, path):
             with open(fn, "w", encoding="utf-8") as f:
                 f.write("\n".join(lines) + "\n")
             ureg = pint.UnitRegistry(fn, non_int_type=eng.ntype, on_redefinition="raise")
+        elif path == "definition-objects":
+            # Definition.from_string(line, numeric type): each call reads its numbers in the type
+            # it is given, whatever type earlier calls in the process used
+            from pint.definitions import Definition
+
+            Definition.from_string("zz = 0.5 * m", float)
+            ureg = pint.UnitRegistry(None, non_int_type=eng.ntype, on_redefinition="raise")
+            block = []
+            for ln in lines:
+                if ln.startswith("@context"):
+                    block = [ln]
+                elif block:
+                    block.append(ln)
+                    if ln.startswith("@end"):
+                        ureg.define("\n".join(block))
+                        block = []
+                else:
+                    ureg.define(Definition.from_string(ln, eng.ntype))
+                    Definition.from_string("zz = 0.25 * m", float)
         else:
             ureg = pint.UnitRegistry(None, non_int_type=eng.ntype, on_redefinition="raise")
             ureg.load_definitions(lines)
@@ -332,7 +364,7 @@ def h_redefinition_modes(eng, mode):
     eng.assume(b > 0)
     eng.assume(Not(Eq(a, b)))
     L = eng.lit
-    lines = ["m = [length]", "kk- = 1000", f"x = {L(a)} * m = X_ = ex", "y = 3 * x", f"x = {L(b)} * m = X2_", "z = 5 * x"]
+    lines = ["m = [length]", "kk- = 1000", f"x = {L(a)} * m = X_ = ex", "y = 3 * x", "@system SY", "    y", "@end", f"x = {L(b)} * m = X2_", "z = 5 * x"]
     try:
         with warnings.catch_warnings():
             warnings.simplefilter("ignore")
@@ -346,6 +378,9 @@ def h_redefinition_modes(eng, mode):
     eng.prove(Eq(Qy(x, "z").to("m").magnitude, x * 5 * b), f"{mode}:units-defined-after-follow")
     eng.prove(Eq(Qy(x, "y").to("m").magnitude, x * 3 * b), f"{mode}:units-defined-before-follow")
     eng.prove(Eq(Qy(x, "kkx").to("m").magnitude, x * 1000 * b), f"{mode}:prefixed-follows")
+    # the registry-level factor API answers from the same (final) definitions
+    eng.prove(Eq(ureg.get_root_units("x")[0], b) and Eq(ureg.get_root_units("y")[0], 3 * b), f"{mode}:get_root_units-follows")
+    eng.prove(Eq(Qy(x, "y").to_root_units().magnitude, x * 3 * b), f"{mode}:to_root_units-follows")
     eng.prove(ureg.get_symbol("x") == "X2_" and ureg.get_name("X2_") == "x", f"{mode}:symbol-of-the-later-definition")
     # (spellings of the earlier definition: 'X_' and 'ex' -- whatever they resolve to must be the
     # later meaning or be undefined, never the earlier factor)
@@ -372,6 +407,13 @@ def h_decimal_literals_other_types(eng, tname):
         "@context(n=1.33) cx", "    [length] -> [time]: value * 3.3356409519815204e-9 * n * s / m", "    ft = 0.3 * m", "@end",
     ]  # fmt: skip
     ureg = pint.UnitRegistry(lines, non_int_type=ntype, on_redefinition="raise")
+    # ... and a unit that arrives as a Definition object read in this type, after calls in another
+    from pint.definitions import Definition
+
+    Definition.from_string("zz = 0.5 * m", decimal.Decimal if ntype is float else float)
+    ureg.define(Definition.from_string("third = 0.3 * m", ntype))
+    eng.prove(type(ureg._units["third"].converter.scale) is ntype, f"{tname}:definition-object:type")
+    eng.prove(abs(F(ureg.Quantity(ntype("2.5"), "third").to("m").magnitude) / F("0.75") - 1) <= tol, f"{tname}:definition-object:value")
     xv = ntype("2.5")
     Qy = ureg.Quantity
 
@@ -556,7 +598,7 @@ def cases(tier, seed):
     opts = {"hash_mode": "mixed", "max_paths": 200}
     ident = list(range(6))
     out.append(Case("H10.a", "identity", M, "h_interpret", {"perm": ident, "layout": "plain"}, opts=opts, validate=1, weight=5.0))
-    for layout in ("tight", "wide", "comments", "blank", "units-first"):
+    for layout in ("tight", "wide", "comments", "blank", "units-first", "late-dimension"):
         out.append(Case("H10.d", layout, M, "h_interpret", {"perm": ident, "layout": layout}, opts=opts, validate=1, weight=5.0))
     perms = list(itertools.permutations(range(6)))
     chosen = perms if big else ([tuple(reversed(ident))] + rnd.sample(perms, 24))
@@ -572,7 +614,7 @@ def cases(tier, seed):
         out.append(Case("H10.a", f"decimal-literals:{tname}-registry", M, "h_decimal_literals_other_types", {"tname": tname}, kind="conc"))
     for mode in ("raise", "warn", "ignore"):
         out.append(Case("H10.e", f"redefinition-mode:{mode}", M, "h_redefinition_modes", {"mode": mode}, opts=opts, validate=1))
-    for path in ("lines", "file", "load_definitions"):
+    for path in ("lines", "file", "load_definitions", "definition-objects"):
         out.append(Case("H10.a", f"decimal-literals:{path}", M, "h_decimal_literals", {"path": path}, opts=opts, validate=1))
     for k in range(400 if big else 24):
         out.append(Case("H10.f", f"dag-{seed}-{k:03d}", M, "h_random_dag", {"k": seed * 1000 + k}, opts=opts, validate=1, weight=2.0))
